@@ -29,6 +29,7 @@ const (
 	clsConc  = "conc"  // concurrent queue-only submissions, default MaxDelay: porcupine order model
 	clsMixed = "mixed" // everything incl. Schedule, small MaxDelay, re-queueing from inside: T1-T4
 	clsPlan  = "plan"  // deterministic pairwise ordering plans built on the yield hooks
+	clsIdle  = "idle"  // tasks that stay idle for more than a minute between creation and first submission
 	clsLong  = "long"  // thorough only: one execution longer than the execution-wait limit
 )
 
@@ -47,6 +48,7 @@ type TaskSpec struct {
 	RunUs []int        `json:"run"`             // run time of the k-th execution (cycled), µs
 	Inner map[int][]Op `json:"inner,omitempty"` // calls issued from inside the k-th execution (1-based)
 	Mod   int          `json:"mod,omitempty"`   // module index (0/1)
+	Panic int          `json:"panic,omitempty"` // this execution (1-based) panics when it is done
 }
 
 // Hist is one history.
@@ -260,6 +262,9 @@ func genMixed(r *vlib.Rand, id int) Hist {
 		if smallDelay && r.Chance(1, 2) {
 			pre = append(pre, Op{Kind: opMaxDelay, Task: i, DelayMs: r.Range(20, 50)})
 		}
+		if r.Chance(1, 8) {
+			h.Tasks[i].Panic = r.Range(1, 2)
+		}
 	}
 	total := r.Range(10, 60)
 	h.Clients = make([][]Op, nc)
@@ -308,6 +313,8 @@ var planNames = []string{
 	"sched-after-queued-run", // a task that ran via the queue is later only scheduled and comes due while a queued task runs
 	"sched-order",            // sequential re-scheduling of listed tasks: the schedule stays sorted
 	"cancelled-rescheduled",  // a cancelled task that is still listed gets an earlier time (no re-sort, no wake-up of the handler)
+	"panic-requeue",          // a task function panics; the task is queued again afterwards
+	"managed-restart",        // managed world: a module is stopped and started again; its start function submits tasks
 	"zero-exposure",          // stress: Schedule(zero)/Schedule(+10s) on the head of the schedule while the handler is kept busy
 	"same-instant",           // two tasks scheduled for the identical time value
 	"unschedule-queued",      // Schedule(zero) on a task that waits in the queue behind a running task
@@ -403,6 +410,12 @@ func caseList(cfg vlib.Cfg) []childSpec {
 		id++
 		out = append(out, childSpec{Prop: cfg.Prop, Tier: cfg.Tier, Kind: "plain", Hists: []Hist{genLong(id)}})
 	}
+	// one child whose tasks stay idle for 62 s before they are submitted for the first
+	// time; it is put first so that it runs in parallel with everything else
+	id++
+	idle := childSpec{Prop: cfg.Prop, Tier: cfg.Tier, Kind: "plain", Hists: []Hist{{ID: id, Class: clsIdle,
+		Tasks: []TaskSpec{{RunUs: []int{1000}}, {RunUs: []int{300}, Mod: 1}, {RunUs: []int{0}}, {RunUs: []int{1000}, Mod: 1}}}}}
+	out = append([]childSpec{idle}, out...)
 	return out
 }
 
